@@ -360,6 +360,12 @@ def meta_objects(rng, k):
             out.append(MetaMessage(rng.choice(('lyrics', 'marker', 'text', 'copyright')), text=txt))
         else:
             out.append(MetaMessage(rng.choice(('track_name', 'instrument_name', 'device_name')), name=txt, time=1))
+    # built with no arguments at all, and with the time only: the defaults are values like any other
+    from ..ref import meta as _rmeta
+    for t in _rmeta.SPECS:
+        out.append(MetaMessage(t))
+        if rng.random() < 0.3:
+            out.append(MetaMessage(t, time=rng.choice(TIMES)))
     out.append(UnknownMetaMessage(0x60, time=3))
     out.append(UnknownMetaMessage(0x7E, (1, 2, 255), time=-0.0))
     return out
